@@ -13,9 +13,11 @@ ev  == Rec[l]
 PairsToMap(ps) == [k \in {ps[i][1] : i \in DOMAIN ps} |-> ps[CHOOSE i \in DOMAIN ps : ps[i][1] = k][2]]
 Bag(s) == [x \in Range(s) |-> Cardinality({i \in DOMAIN s : s[i] = x})]
 
+IsPayload(e) == "payload" \in DOMAIN e        \* a payload value (language S1): only the syntax round trip is stated
 Laws(e) ==
   LET n == e.node IN
   IF e.panic THEN {"panic"}
+  ELSE IF IsPayload(e) THEN (IF e.syntax_ok THEN {} ELSE {"to_syntax/from_syntax of a payload value"})
   ELSE
    (IF e.all = AllOcc(n) /\ e.mut_same THEN {} ELSE {"all_slot_occurrences"})
    \cup (IF e.pub = PubOcc(n) THEN {} ELSE {"public_slot_occurrences"})
@@ -36,11 +38,11 @@ TraceInit == l = 1
 TraceNext == /\ l <= Len(Rec) /\ l' = l + 1
              /\ LET f == Laws(ev) IN
                 IF f = {} THEN TRUE
-                ELSE PrintT("SHAPEBAD " \o ToJson([i |-> ev.i, laws |-> SetToSeq(f), collides |-> Collides(ev.node)]))
+                ELSE PrintT("SHAPEBAD " \o ToJson([i |-> ev.i, laws |-> SetToSeq(f), collides |-> IF IsPayload(ev) THEN FALSE ELSE Collides(ev.node)]))
 TraceSpec == TraceInit /\ [][TraceNext]_<<l>>
 
 (* shapes are canonical: equal impl shapes exactly for renaming-equivalent nodes *)
-Good == {i \in 1..Len(Rec) : ~Rec[i].panic}
+Good == {i \in 1..Len(Rec) : ~Rec[i].panic /\ ~IsPayload(Rec[i])}
 Pairs == {<<Rec[i].shape_key, RefShape(Rec[i].node)>> : i \in Good}
 ImplKeys == {p[1] : p \in Pairs}
 RefKeys  == {p[2] : p \in Pairs}
